@@ -1,5 +1,6 @@
 import Driver.Util
 import TurnModel.Model.Framer
+import TurnModel.Model.PortRange
 namespace Drv
 open Turn
 
@@ -49,6 +50,13 @@ def protoStep (toks : List String) : Option String :=
     some (showRes toHex (xorAddrAdd (parseHex tid) (parseHex ip) (natOf port)))
   | ["xoraddr", "get", tid, v] =>
     some (showRes (fun (p : Bytes × Nat) => s!"{toHex p.1} {p.2}") (xorAddrGet (parseHex tid) (optHex v)))
+  | ["pr", mn, mx, retries, req, used, rands] =>
+    let csv (s : String) : List Nat := if s == "-" then [] else (s.splitOn ",").map natOf
+    let c : Turn.PortRange.Cfg := ⟨natOf mn, natOf mx, natOf retries⟩
+    let intn := if natOf req == 0 then s!" intn={Turn.PortRange.intnArg c.min c.max}" else ""
+    some (match Turn.PortRange.alloc c (csv used) (natOf req) (csv rands) with
+      | .ok p a => s!"ok {p} {a}{intn}"
+      | .err a => s!"err {a}{intn}")
   | _ => none
 
 end Drv
